@@ -49,7 +49,7 @@ def _java_cmd(extra_jvm=()):
 _RE_STATES = re.compile(r"(\d+) states generated, (\d+) distinct states found")
 _RE_DEPTH = re.compile(r"The depth of the complete state graph search is (\d+)")
 _RE_INV = re.compile(r"Error: Invariant (\S+) is violated")
-_RE_PROP = re.compile(r"Error: (?:Action|Temporal) propert(?:y|ies) (\S*)\s*(?:is|were) violated")
+_RE_PROP = re.compile(r"Error: (?:Action|Temporal) propert(?:y|ies) (\S*)\s*(?:is|was|were) violated")
 _RE_COV = re.compile(r"^<(\w+) line \d+, col \d+ to line \d+, col \d+ of module (\w+)>: (\d+):(\d+)", re.M)
 
 
@@ -98,6 +98,11 @@ def model_check(module: str, cfg: str, workers: int = 16, timeout: int = 1200,
     mp = _RE_PROP.search(out)
     if mi or mp:
         r.violated = (mi or mp).group(1) or "property"
+        i = out.find("Error:")
+        r.counterexample = out[i:i + 6000]
+        return r
+    if "Deadlock reached" in out:
+        r.violated = "Deadlock"
         i = out.find("Error:")
         r.counterexample = out[i:i + 6000]
         return r
